@@ -80,6 +80,37 @@ def parseSelectionWith (allLocs : List Loc) (value : String) : Option Selection 
 (`parseSelectionWith` takes the value the shared set has when the request is served) -/
 def parseSelection (value : String) : Option Selection := parseSelectionWith Loc.all value
 
+/-! #### what a manifest hands on: `_drm_selection_to_string` (drm_options.py:113-126) -/
+
+/-- a location set as the serialiser writes it: `sorted(loc.to_json() for loc in locations)` –
+the members in alphabetical order (= constructor order), each once -/
+def normLocs (locs : List Loc) : List Loc := Loc.all.filter (locs.contains ·)
+
+/-- one item of the serialised value: a bare name (`locations == ALL_DRM_LOCATIONS`) or
+`name-loc-loc…` -/
+abbrev Item := Sys × Option (List Loc)
+
+/-- the serialised `drm` value, as tokens: `all`, or the comma separated items -/
+inductive Printed
+  | all
+  | items (l : List Item)
+  deriving DecidableEq, Repr
+
+def isFull (locs : List Loc) : Bool := Loc.all.all (locs.contains ·)
+
+/-- `_drm_selection_to_string`: every entry becomes a bare name when its locations are all
+locations, else name + sorted locations; `all` when the set of results is exactly the three
+bare names -/
+def printSelection (sel : Selection) : Printed :=
+  let items : List Item := sel.map fun (s, locs) => if isFull locs then (s, none) else (s, some (normLocs locs))
+  if items.all (·.2.isNone) && Sys.all.all (fun s => items.any (·.1 == s)) then .all else .items items
+
+/-- `_drm_selection_from_string` on the serialised tokens (the string level – `,` / `-`
+joining and splitting – is tied by the `drmsel` channel) -/
+def readPrinted : Printed → Selection
+  | .all => Sys.all.map fun s => (s, Loc.all)
+  | .items l => l.map fun (s, locs) => (s, locs.getD Loc.all)
+
 /-- `DrmContext.__init__`: `manifest_context[drm_name] = …` in selection order, so the
 last entry for a system wins -/
 def lookupLast (sel : Selection) (s : Sys) : Option (List Loc) :=
